@@ -271,7 +271,7 @@ def read_cycles(h):
     def take(limit):
         """next piece of the stream: 1..remaining bytes (choice), at most `limit`"""
         rem = len(stream) - pos["i"]
-        if h.params.get("all_piece_sizes"):
+        if h.params.get("all_piece_sizes") and not big:         # the 28-byte frame keeps the cuts that matter at the size limit
             n = 1 + h.choose(min(rem, limit), f"piece@{pos['i']}")
         else:
             # one byte, up to the end of the current frame, or everything that is left
